@@ -350,7 +350,7 @@ def gc2(F, R):
                   "group destruction is not restricted to the unread counter having reached exactly 0 after this read",
                   detail)
         ex = extra_guards(e.facts, lambda f: f in (fa, fb, fc) or (f[0] in ("in", "notin") and (is_pers_discr_of(f[1], reader) or is_tag_of(f[1], reader)))
-                          or (f[0] in ("in", "notin") and slot_of(strip_load(f[1]), "Sodg::stores") is not None), e.body)
+                          or (f[0] in ("in", "notin") and slot_of(strip_load(f[1]), "Sodg::stores") is not None), e.body, e.site)
         if fa and fb and fc and ex:
             R.bad("GC2", "GC2/Sodg::data/destroy-extra-condition", e.where(),
                   "a member of the dying group is removed only under an additional condition (%s): part of the group survives its "
@@ -489,8 +489,8 @@ def gc4(F, R):
         x = e.x
         ok = lambda f: f[0] in ("in", "notin") and is_pers_discr_of(f[1], x) and \
             ((f[0] == "notin" and f[2] == frozenset(["Stored"])) or (f[0] == "in" and f[2] == frozenset(["Empty", "Taken"])))
-        return not extra_guards(e.facts, ok, e.body) and any(ok(f) for f in e.facts) and pers_fact_is_prestate(("in", ("discr", x), frozenset()), body, stores)
-    if stores and not any((e.uncond and not extra_guards(e.facts, lambda f: False, e.body)) or only_when_not_stored_yet(e) for e in stores):
+        return not extra_guards(e.facts, ok, e.body, e.site) and any(ok(f) for f in e.facts) and pers_fact_is_prestate(("in", ("discr", x), frozenset()), body, stores)
+    if stores and not any((e.uncond and not extra_guards(e.facts, lambda f: False, e.body, e.site)) or only_when_not_stored_yet(e) for e in stores):
         e = stores[0]
         R.bad("GC4", "GC4/Sodg::put/stored-write-conditional", e.where(),
               "put() marks the vertex as holding an unread datum only on some paths: a datum stored again (after it was read) is "
@@ -536,7 +536,7 @@ def gc4(F, R):
             R.bad("GC4", "GC4/Sodg::put/inc-not-guarded-by-unread-gain", e.where(),
                   "an overwriting put() (vertex already holds an unread datum) is counted again: the counter exceeds the "
                   "number of unread data and the group never dies", detail)
-        ex = extra_guards(e.facts, lambda f: (f[0] in ("in", "notin") and (is_pers_discr_of(f[1], x) or is_tag_of(f[1], x))), e.body)
+        ex = extra_guards(e.facts, lambda f: (f[0] in ("in", "notin") and (is_pers_discr_of(f[1], x) or is_tag_of(f[1], x))), e.body, e.site)
         if ex:
             R.bad("GC4", "GC4/Sodg::put/inc-extra-condition", e.where(),
                   "the put-gain is skipped under an additional condition (%s): some unread data are not counted" % ex, detail)
@@ -565,7 +565,7 @@ def gc4(F, R):
             R.bad("GC4", "GC4/Sodg::data/dec-not-guarded-by-grouped", e.where(),
                   "reading an ungrouped vertex (tag 1) decrements the counter of reserved slot 1", detail)
         else:
-            ex = extra_guards(e.facts, lambda f: (f[0] in ("in", "notin") and (is_pers_discr_of(f[1], x) or is_tag_of(f[1], x))), e.body)
+            ex = extra_guards(e.facts, lambda f: (f[0] in ("in", "notin") and (is_pers_discr_of(f[1], x) or is_tag_of(f[1], x))), e.body, e.site)
             if ex:
                 R.bad("GC4", "GC4/Sodg::data/dec-extra-condition", e.where(),
                       "the first read of a grouped vertex decrements the unread counter only under an additional condition (%s): the "
@@ -622,7 +622,7 @@ def gc4(F, R):
     # completeness the other way: every Stored write has a gain, every Taken a loss — done above
 
 
-def extra_guards(facts, allowed, body):
+def extra_guards(facts, allowed, body, site=None):
     """guards other than the allowed ones (overflow asserts, logging and iterator protocol are never guards)"""
     out = []
     for f in facts:
@@ -642,6 +642,8 @@ def extra_guards(facts, allowed, body):
         if allowed(f):
             continue
         if f in body.presence_assertions():
+            continue
+        if site is not None and body.asserted(f, site):
             continue
         # "the slot looked up in one of the graph's tables exists": every slot of the three tables is filled by the
         # constructor and ids beyond the capacity are outside the documented preconditions
@@ -781,7 +783,7 @@ def gc5(F, R):
         else:
             used.add(id(m))
             ex = extra_guards(j.facts, lambda f: (f[0] in ("in", "notin") and is_tag_of(f[1])) or
-                              (f[0] in ("bool", "in") and mentions(f, lambda x: x[0] == "call" and x[1].split("::")[-1] in ("is_empty", "len") and "microstack" in x[1])), j.body)
+                              (f[0] in ("bool", "in") and mentions(f, lambda x: x[0] == "call" and x[1].split("::")[-1] in ("is_empty", "len") and "microstack" in x[1])), j.body, j.site)
             if g is not None and ex:
                 R.bad("GC5", "GC5/Sodg::bind/join-extra-condition/%s" % join_kind(j, body), j.where(),
                       "an ungrouped endpoint joins the group only under an additional condition (%s): otherwise it stays "
@@ -974,9 +976,10 @@ def gc6(F, R, parts="abcd"):
                 R.bad("GC6", "GC6/%s/%s-replaced" % (fk, e.field.split("::")[1]), e.where(), "group table replaced")
 
 
-def limits(F, R):
-    """LM: the documented limits are the ones compiled in — the two group tables have 16 slots (2 reserved + 14 groups), a
-    member list holds 16 vertices"""
+def limits(F, R, exact=False):
+    """LM: the documented limits are available — the two group tables have at least 16 slots (2 reserved + 14 groups), a
+    member list holds at least 16 vertices (so calls within the limits complete).  exact=True (C07): a member list holds
+    exactly 16, so the 17th member stops with a panic as documented.  Larger tables change nothing within the limits."""
     import re as _re
     ctor = F.fn("Sodg", "empty")
     if ctor is None:
@@ -990,11 +993,11 @@ def limits(F, R):
                     v = strip_load(fs.get(fname, ("?",)))
                     n += 1
                     cap = strip_load(v[2][0]) if v[0] == "call" and v[1].split("::")[-1].startswith("with_capacity") and v[2] else None
-                    if cap == ("const", 16):
-                        R.ok("LM1", ctor.where(site), "the `%s` table has 16 slots: 2 reserved and 14 for groups" % fname)
+                    if cap is not None and cap[0] == "const" and type(cap[1]) is int and cap[1] >= 16:
+                        R.ok("LM1", ctor.where(site), "the `%s` table has %d slots: 2 reserved and at least 14 for groups" % (fname, cap[1]))
                     else:
                         R.bad("LM1", "LM1/Sodg::empty/%s-table-size" % fname, ctor.where(site),
-                              "the `%s` table is not created with 16 slots (2 reserved + the documented 14 groups alive at once): %s"
+                              "the `%s` table is not created with at least 16 slots (2 reserved + the documented 14 groups alive at once): %s"
                               % (fname, show(cap, ctor) if cap else show(v, ctor)[:120]))
         R.floor("LM1", "group tables sized in the constructor", n, 2, ctor.where())
     sodg = F.adts.get("Sodg")
@@ -1009,12 +1012,15 @@ def limits(F, R):
     else:
         k = m.group(1).split("::")[-1]
         val = int(k) if k.isdigit() else F.consts.get(k)
-        if val == 16:
-            R.ok("LM2", sodg["span"], "a group's member list holds 16 vertices (%s)" % m.group(0))
+        if val == 16 or (not exact and isinstance(val, int) and val > 16):
+            R.ok("LM2", sodg["span"], "a group's member list holds %s vertices (%s)" % (val, m.group(0)))
+        elif isinstance(val, int) and val > 16:
+            R.bad("LM2", "LM2/Sodg::branches/member-list-accepts-more-than-16", sodg["span"],
+                  "a group's member list holds %s vertices (%s): a 17th member is accepted instead of stopping with a panic" % (val, m.group(0)))
         else:
             R.bad("LM2", "LM2/Sodg::branches/member-list-size", sodg["span"],
-                  "a group's member list does not hold exactly the documented 16 vertices (%s = %s): a 16th member panics, or a 17th is "
-                  "accepted" % (m.group(0), val))
+                  "a group's member list does not hold the documented 16 vertices (%s = %s): a call within the limits panics"
+                  % (m.group(0), val))
 
 
 def loop_header_site(e):
